@@ -54,7 +54,7 @@ func Run(c *core.Ctx) {
 	}
 	LoaderRules(c)
 	c.Expect("R1.private", 4)
-	c.Expect("R2.pair", 4)
+	c.Expect("R2.pair", 2)
 	c.Expect("R2.reach", 2)
 	c.Expect("R3.done", 2)
 	c.Expect("R3.close-after-wait", 2)
@@ -358,14 +358,10 @@ func completion(c *core.Ctx, fn *core.Fn, short string, w *ast.FuncLit, g *cfgq.
 		short+" returns before the workers have processed every entry of the RDB")
 }
 
-// propagate checks that the errors recorded in slice v are returned by fn.
-func propagate(c *core.Ctx, fn *core.Fn, short string, v types.Object) {
-	info := fn.Pkg.TypesInfo
-	g := cfgq.Of(c.Program, fn)
-	key := short + "/" + v.Name()
+// scanFor finds `for _, e := range v { if e != nil { return e } }` under body.
+func scanFor(info *types.Info, body ast.Node, v types.Object) *ast.RangeStmt {
 	var rng *ast.RangeStmt
-	okRet := false
-	core.Inspect(fn.Decl.Body, func(n ast.Node) bool {
+	core.Inspect(body, func(n ast.Node) bool {
 		rs, ok := n.(*ast.RangeStmt)
 		if !ok || core.ObjOf(info, rs.X) != v || rs.Value == nil {
 			return true
@@ -373,26 +369,103 @@ func propagate(c *core.Ctx, fn *core.Fn, short string, v types.Object) {
 		val := core.ObjOf(info, rs.Value)
 		core.Inspect(rs.Body, func(m ast.Node) bool {
 			if ret, ok := m.(*ast.ReturnStmt); ok && len(ret.Results) > 0 && core.ObjOf(info, ret.Results[len(ret.Results)-1]) == val &&
-				cfgq.ClassifyReturn(info, fn.Decl.Body, ret) == cfgq.RetErr {
-				rng, okRet = rs, true
+				cfgq.ClassifyReturn(info, body, ret) == cfgq.RetErr {
+				rng = rs
 			}
 			return true
 		})
 		return true
 	})
-	if !okRet {
-		c.Failf("R4.propagate", key, fn.Decl.Pos(), "worker failures are stored in %s but %s never returns a non-nil element of it: a failed restore ends as a successful full sync", v.Name(), short)
-		return
-	}
-	// a nil return must have gone through the scan of the slice
-	w := g.Path(cfgq.Query{From: g.Entry(), Avoid: IsNode(rng.X), TargetExit: func(b *cfg.Block, k cfgq.ExitKind) bool {
+	return rng
+}
+
+// successWithout: a success (non-error) return of the body of g is reachable without passing a node accepted by pass.
+func successWithout(g *cfgq.Graph, info *types.Info, body ast.Node, pass func(ast.Node) bool) []string {
+	return g.Path(cfgq.Query{From: g.Entry(), Avoid: pass, TargetExit: func(b *cfg.Block, k cfgq.ExitKind) bool {
 		if k == cfgq.ExitFall {
 			return NormalExit(b, k)
 		}
 		ret, _ := b.Nodes[len(b.Nodes)-1].(*ast.ReturnStmt)
-		return k == cfgq.ExitRet && ret != nil && cfgq.ClassifyReturn(info, fn.Decl.Body, ret) != cfgq.RetErr
+		return k == cfgq.ExitRet && ret != nil && cfgq.ClassifyReturn(info, body, ret) != cfgq.RetErr
 	}})
-	c.Check("R4.propagate", key, rng.Pos(), w == nil, "a success return of "+short+" is reachable without scanning "+v.Name()+" for worker failures: a failed restore ends as a successful full sync", w...)
+}
+
+// propagate checks that the errors recorded in slice v are returned by fn: by a scan of the slice in fn itself, or
+// in a same-package helper that fn hands the slice to and whose result it returns.
+func propagate(c *core.Ctx, fn *core.Fn, short string, v types.Object) {
+	info := fn.Pkg.TypesInfo
+	g := cfgq.Of(c.Program, fn)
+	key := short + "/" + v.Name()
+	const lost = "a failed restore ends as a successful full sync"
+	if rng := scanFor(info, fn.Decl.Body, v); rng != nil {
+		w := successWithout(g, info, fn.Decl.Body, IsNode(rng.X))
+		c.Check("R4.propagate", key, rng.Pos(), w == nil, "a success return of "+short+" is reachable without scanning "+v.Name()+" for worker failures: "+lost, w...)
+		return
+	}
+	// one level of helper following: h(v) with the result returned or tested by fn
+	for _, call := range core.Calls(fn.Decl.Body, info, func(call *ast.CallExpr, _ types.Object) bool {
+		for _, a := range call.Args {
+			if core.ObjOf(info, a) == v {
+				return true
+			}
+		}
+		return false
+	}) {
+		h := c.FnOf(core.CalleeFunc(info, call))
+		if h == nil || h.Decl.Body == nil || h.Pkg != fn.Pkg {
+			continue
+		}
+		var param types.Object
+		i := 0
+		for _, f := range h.Decl.Type.Params.List {
+			for _, nm := range f.Names {
+				if i < len(call.Args) && core.ObjOf(info, call.Args[i]) == v {
+					param = info.Defs[nm]
+				}
+				i++
+			}
+		}
+		rng := scanFor(info, h.Decl.Body, param)
+		if param == nil || rng == nil {
+			continue
+		}
+		c.Functions[h.Name()] = true
+		hg := cfgq.Of(c.Program, h)
+		if w := successWithout(hg, info, h.Decl.Body, IsNode(rng.X)); w != nil {
+			c.Check("R4.propagate", key, rng.Pos(), false, "the helper that scans "+v.Name()+" can return success without scanning it: "+lost, w...)
+			return
+		}
+		// the helper's verdict must be what fn returns
+		cp, ok := g.Find(call)
+		if !ok {
+			continue
+		}
+		if ret, isRet := cp.Node().(*ast.ReturnStmt); isRet && len(ret.Results) > 0 && ast.Unparen(ret.Results[len(ret.Results)-1]) == ast.Expr(call) {
+			w := successWithout(g, info, fn.Decl.Body, IsNode(ret))
+			c.Check("R4.propagate", key, call.Pos(), w == nil, "a success return of "+short+" is reachable without consulting "+v.Name()+" for worker failures: "+lost, w...)
+			return
+		}
+		if ErrCheck(c, g, info, fn.Decl.Body, call, ErrSpec{Rule: "R4.propagate", Key: key, RetOK: true, Consequence: lost}) {
+			w := successWithout(g, info, fn.Decl.Body, IsNode(cp.Node()))
+			if w != nil {
+				c.Check("R4.propagate", key+"/always", call.Pos(), false, "a success return of "+short+" is reachable without consulting "+v.Name()+" for worker failures: "+lost, w...)
+			}
+		}
+		return
+	}
+	// provably never read in fn (outside the workers that write it)?
+	reads := 0
+	core.Inspect(fn.Decl.Body, func(n ast.Node) bool {
+		if id, ok := n.(*ast.Ident); ok && info.Uses[id] == v {
+			reads++
+		}
+		return true
+	})
+	if reads == 0 {
+		c.Failf("R4.propagate", key, fn.Decl.Pos(), "worker failures are stored in %s but %s never reads it: %s", v.Name(), short, lost)
+	} else {
+		c.Undecidedf("R4.propagate", key, fn.Decl.Pos(), "worker failures are stored in %s; how %s turns them into its result is not in a recognised form", v.Name(), short)
+	}
 }
 
 // nilDeref: `c, _ := OpenRedisConn(...)` is tolerated iff the callee returns a
